@@ -518,6 +518,112 @@ def _export_tables(sizeofs, consts, out, src):
                    "Definition exp_%s_index_bound (nexp nnames : Z) : Z := %s.\n"
                    % (tbl, len(idx[tbl]), " | ".join(" and ".join(bs) for bs in idx[tbl]), nm, t))
 
+# ------------------------------------------------------------------ dotnet.c: recursion guards
+def _split_args(txt):
+    args, depth, cur = [], 0, ""
+    for c in txt:
+        if c in "([{":
+            depth += 1
+        elif c in ")]}":
+            depth -= 1
+        if c == "," and depth == 0:
+            args.append(cur.strip())
+            cur = ""
+        else:
+            cur += c
+    args.append(cur.strip())
+    return args
+
+
+def _dotnet_depth(out, src):
+    """The functions of dotnet.c that carry a `depth` parameter against loops: which of them test it against a limit before
+    doing anything else, and for every call between them what is passed as depth (`depth` or `depth + 1`)."""
+    what = "recursion guards (modules/dotnet/dotnet.c)"
+    txt = strip_comments(_read("libyara/modules/dotnet/dotnet.c"))
+    names = []
+    for m in re.finditer(r"\b([A-Za-z_]\w*)\s*\(([^;{}()]*\buint32_t\s+depth\s*)\)\s*\{", txt):
+        if m.group(1) not in names:
+            names.append(m.group(1))
+    if not names:
+        raise GenError("translator cannot parse %s: no function with a `uint32_t depth` parameter" % what)
+    funcs = {}
+    for n in names:
+        params, body, _ = function_def(_read("libyara/modules/dotnet/dotnet.c"), n, what)
+        body = strip_comments(body)
+        if [p for p, _ in params][-1] != "depth":
+            raise GenError("translator cannot parse %s: depth is not the last parameter of %s" % (what, n))
+        if re.search(r"\bdepth\s*(=[^=]|\+\+|--|\+=|-=)|(\+\+|--)\s*depth|&\s*depth\b", body):
+            raise GenError("translator cannot parse %s: %s modifies depth" % (what, n))
+        funcs[n] = body
+    calls, guards = [], {}
+    for n in names:
+        body = funcs[n]
+        first_call = len(body)
+        for g in names:
+            for m in re.finditer(r"\b%s\s*\(" % re.escape(g), body):
+                e = _paren_end(body, m.end() - 1)
+                args = _split_args(body[m.end():e - 1])
+                a = re.sub(r"\s+", "", args[-1])
+                if a == "depth":
+                    d = 0
+                elif a in ("depth+1", "1+depth"):
+                    d = 1
+                elif re.fullmatch(r"\d+", a):
+                    d = -1      # a constant: the callee starts a count of its own; such a call must not lie on a cycle
+                else:
+                    raise GenError("translator cannot parse %s: %s calls %s with depth argument `%s`" % (what, n, g, args[-1]))
+                calls.append((n, g, d))
+                first_call = min(first_call, m.start())
+        gm = re.search(r"if\s*\(([^{};]*?\bdepth\s*>\s*(MAX_\w+)[^{};]*?)\)\s*(?:\{\s*)?return\b", body)
+        if gm and gm.start() < first_call:
+            cond = gm.group(1)
+            # the limit must be one disjunct of the condition: `a || b || depth > MAX`
+            if "&&" in cond:
+                raise GenError("translator cannot parse %s: the depth test of %s is under a conjunction" % (what, n))
+            guards[n] = gm.group(2)
+    limits = {}
+    hdr = _read("libyara/include/yara/dotnet.h") + "\n" + _read("libyara/modules/dotnet/dotnet.c")
+    for lim in set(guards.values()):
+        m = re.search(r"^\s*#\s*define\s+%s\s+(\d+|0[xX][0-9a-fA-F]+)\s*$" % lim, hdr, re.M)
+        if not m:
+            raise GenError("translator cannot parse %s: %s is not a plain number" % (what, lim))
+        limits[lim] = int(m.group(1), 0)
+    ids = {n: i for i, n in enumerate(names)}
+
+    def ranks(edges):
+        """longest-path rank in the graph of `edges` (callee below caller); None when it has a cycle"""
+        r = {n: 0 for n in names}
+        for _ in range(len(names) + 1):
+            changed = False
+            for f, g in edges:
+                if r[f] < r[g] + 1:
+                    r[f] = r[g] + 1
+                    changed = True
+            if not changed:
+                return r
+        return None
+    zr = ranks([(f, g) for f, g, d in calls if d == 0])
+    ur = ranks([(f, g) for f, g, d in calls if f not in guards and g not in guards])
+    reach = {n: {n} for n in names}
+    for _ in range(len(names) + 1):
+        for f, g, d in calls:
+            reach[f] |= reach[g]
+    sr = {n: len(reach[n]) for n in names}
+    out.append("\n(* ---- dotnet.c: the functions that carry a `depth` parameter against loops\n")
+    for n in names:
+        out.append("   %d = %s%s\n" % (ids[n], n, "   returns when depth > %s = %d, before any call" % (guards[n], limits[guards[n]]) if n in guards else "   (no test of its own)"))
+    out.append("   calls (caller, callee, what is added to depth; -1: a constant is passed, the callee counts afresh): *)\n")
+    out.append("Definition dotnet_depth_guarded : list bool := [%s].\n" % "; ".join("true" if n in guards else "false" for n in names))
+    out.append("Definition dotnet_depth_limits : list Z := [%s].\n" % "; ".join(str(limits[guards[n]]) if n in guards else "0" for n in names))
+    out.append("Definition dotnet_depth_calls : list (nat * nat * Z) := [%s].\n" % "; ".join("(%d%%nat, %d%%nat, %d)" % (ids[f], ids[g], d) for f, g, d in calls))
+    out.append("(* certificates computed by the translator (checked in Coq): a rank that decreases along every call that passes depth\n"
+               "   unchanged, and one that decreases along every call between two functions without a test *)\n")
+    out.append("Definition dotnet_zero_rank : list nat := [%s].\n" % "; ".join("%d%%nat" % (zr or {n: 0 for n in names})[n] for n in names))
+    out.append("Definition dotnet_unguarded_rank : list nat := [%s].\n" % "; ".join("%d%%nat" % (ur or {n: 0 for n in names})[n] for n in names))
+    out.append("(* and one that never increases along a call and decreases where a constant is passed *)\n")
+    out.append("Definition dotnet_reset_rank : list nat := [%s].\n" % "; ".join("%d%%nat" % sr[n] for n in names))
+    src["dotnet_depth"] = {"functions": names, "guards": guards, "calls": calls}
+
 
 def translate():
     """returns (text of GenBounds.v, dict of translated source texts for the harness tie)"""
@@ -526,7 +632,7 @@ def translate():
     consts = {c: K[c] for c in CONST_MACROS}
     out = ["(* GENERATED from include/yara/pe_utils.h, include/yara/dex.h, modules/elf/elf.c, modules/macho/macho.c,\n"
            "   modules/pe/pe_utils.c by lib/genbounds.py: do not edit *)\n"
-           "From Coq Require Import ZArith Bool.\nFrom YV Require Import Base.USem.\nLocal Open Scope Z_scope.\n\n"]
+           "From Coq Require Import ZArith Bool List.\nFrom YV Require Import Base.USem.\nImport ListNotations.\nLocal Open Scope Z_scope.\n\n"]
     for c in CONST_MACROS:
         out.append("Definition %s : Z := %d.\n" % (c, consts[c]))
     for t in SIZEOF_TYPES:
@@ -679,6 +785,7 @@ def translate():
     out.append("(* while (%s) *)\nDefinition pe_rva_loop_cond (i number_of_sections : Z) : bool :=\n  %s.\n" % (ctext, term))
     src["pe_rva_loop_cond"] = ctext
     _export_tables(sizeofs, consts, out, src)
+    _dotnet_depth(out, src)
     src["constants"] = K
     return "".join(out), src
 
